@@ -24,19 +24,53 @@ import (
 type c14In struct {
 	Mode string `json:"mode"`
 	// auth
-	Kind    int      `json:"kind,omitempty"`   // 0 xmpp.Password, 1 xmpp.OAuthToken
-	User    []byte   `json:"user,omitempty"`   // bytes of the Go string
-	Secret  []byte   `json:"secret,omitempty"` // bytes of the Go string
-	Mechs   []string `json:"mechs"`            // server list, in order (valid UTF-8 by construction)
-	NoElem  bool     `json:"noelem,omitempty"` // empty list sent as "no <mechanisms/> element at all"
-	W       int      `json:"w,omitempty"`      // 0 Write ok, 1 Write returns an error, 2 Write returns (0, nil)
-	RKind   int      `json:"rkind,omitempty"`  // abstract reply kind: 0 success 1 failure 2 other packet 3 read error
-	Reply   string   `json:"reply,omitempty"`  // concrete bytes the server sends (ASCII)
-	Reason  string   `json:"reason,omitempty"` // failure condition (goes to the model, which ignores it)
-	ReplyID string   `json:"reply_id,omitempty"`
+	Kind   int      `json:"kind,omitempty"`   // 0 xmpp.Password, 1 xmpp.OAuthToken
+	User   []byte   `json:"user,omitempty"`   // bytes of the Go string
+	Secret []byte   `json:"secret,omitempty"` // bytes of the Go string
+	Mechs  []string `json:"mechs"`            // server list, in order (valid UTF-8 by construction)
+	NoElem bool     `json:"noelem,omitempty"` // empty list sent as "no <mechanisms/> element at all"
+	// Look-alikes: child elements of the SASL <mechanisms/> element that are NOT
+	// {urn:ietf:params:xml:ns:xmpp-sasl}mechanism (another namespace, or another name) and
+	// therefore advertise nothing; At = index in Mechs before which the child stands.
+	Foreign []c14Foreign `json:"foreign,omitempty"`
+	Outside []string     `json:"outside,omitempty"` // raw look-alike elements directly under <stream:features/>
+	Spell   int          `json:"spell,omitempty"`   // 1: the SASL elements are written with a prefix (same elements)
+	W       int          `json:"w,omitempty"`       // 0 Write ok, 1 Write returns an error, 2 Write returns (0, nil)
+	RKind   int          `json:"rkind,omitempty"`   // abstract reply kind: 0 success 1 failure 2 other packet 3 read error
+	Reply   string       `json:"reply,omitempty"`   // concrete bytes the server sends (ASCII)
+	Reason  string       `json:"reason,omitempty"`  // failure condition (goes to the model, which ignores it)
+	ReplyID string       `json:"reply_id,omitempty"`
 	// codec
 	Data []byte `json:"data,omitempty"`
 	Text []byte `json:"text,omitempty"`
+}
+
+type c14Foreign struct {
+	At    int    `json:"at"`
+	NS    string `json:"ns"` // "" = no namespace (xmlns='')
+	Local string `json:"local"`
+	Text  string `json:"text"`
+}
+
+// c14Child: one child element of <mechanisms/>, genuine or look-alike, in document order.
+type c14Child struct{ NS, Local, Text string }
+
+func c14Children(in c14In) []c14Child {
+	if in.NoElem && len(in.Mechs) == 0 {
+		return nil
+	}
+	var out []c14Child
+	for i := 0; i <= len(in.Mechs); i++ {
+		for _, f := range in.Foreign {
+			if f.At == i || (i == len(in.Mechs) && f.At > i) || (i == 0 && f.At < 0) {
+				out = append(out, c14Child{f.NS, f.Local, f.Text})
+			}
+		}
+		if i < len(in.Mechs) {
+			out = append(out, c14Child{c14NSSASL, "mechanism", in.Mechs[i]})
+		}
+	}
+	return out
 }
 
 type c14 struct{}
@@ -47,7 +81,7 @@ func (c14) ID() string    { return "C14" }
 func (c14) RunFn() string { return "run_C14" }
 func (c14) Workers() int  { return 8 }
 func (c14) Rule() string {
-	return "auth: user/secret drawn from {empty, ASCII, NUL-adjacent, non-ASCII UTF-8, XML metacharacters, 1 kB, arbitrary bytes incl. invalid UTF-8, every length mod 3} x server lists of 0-7 names over {PLAIN, X-OAUTH2, SCRAM-SHA-1, ANONYMOUS, near-misses, unknown, empty string} with duplicates and any order (empty list as an empty element or no element) x {Password, OAuthToken} x Write {ok, error, 0 bytes} x a table of concrete replies (success / failure with every RFC 6120 condition / other packets / wrong-namespace success / truncated / EOF); codec: random bytes and valid, mutated and random base64 text through base64.StdEncoding; distinct = (mode, kind, list shape, user class, secret class, raw length mod 3, write mode, reply); non-trivial = common mechanism exists and user or secret non-empty (codec: text non-empty)"
+	return "auth: user/secret drawn from {empty, ASCII, NUL-adjacent, non-ASCII UTF-8, XML metacharacters, 1 kB, arbitrary bytes incl. invalid UTF-8, every length mod 3} x server lists of 0-7 names over {PLAIN, X-OAUTH2, SCRAM-SHA-1, ANONYMOUS, near-misses, unknown, empty string} with duplicates and any order (empty list as an empty element or no element), optionally with look-alikes that advertise nothing (children of <mechanisms/> called mechanism in 8 other namespaces or with another name in the SASL namespace; SASL-looking elements elsewhere in the features) and with the SASL elements spelled with a prefix; the features element is decoded by the library itself x {Password, OAuthToken} x Write {ok, error, 0 bytes} x a table of concrete replies (success / failure with every RFC 6120 condition / other packets / wrong-namespace success / truncated / EOF); codec: random bytes and valid, mutated and random base64 text through base64.StdEncoding; distinct = (mode, kind, list shape, user class, secret class, raw length mod 3, write mode, reply); non-trivial = common mechanism exists and user or secret non-empty (codec: text non-empty)"
 }
 
 const c14NSSASL = "urn:ietf:params:xml:ns:xmpp-sasl"
@@ -125,6 +159,19 @@ var c14MechPool = []string{"PLAIN", "X-OAUTH2", "SCRAM-SHA-1", "ANONYMOUS", "",
 	"DIGEST-MD5", "EXTERNAL", "SCRAM-SHA-1-PLUS", "plain", "Plain", " PLAIN", "PLAIN ", "PLAIN\n", "PLAI", "PLAINX",
 	"X-OAUTH", "x-oauth2", "X-OAUTH2 ", "XOAUTH2", "X_OAUTH2", "<PLAIN>", "PL&AIN", "\"PLAIN\"", "PLAIN,X-OAUTH2",
 	"PLAIN X-OAUTH2", "ПЛАИН", "UNKNOWN-MECH"}
+
+// namespaces of look-alike <mechanism/> children: none of them is the SASL namespace
+var c14ForeignNS = []string{"urn:example:not-sasl", "", "jabber:client", "urn:ietf:params:xml:ns:xmpp-tls",
+	"urn:ietf:params:xml:ns:xmpp-sasl2", "URN:IETF:PARAMS:XML:NS:XMPP-SASL", "urn:ietf:params:xml:ns:xmpp-sasl ", "urn:xmpp:sasl:2"}
+
+// look-alikes directly under <stream:features/> (placed before / after the real list)
+var c14OutsidePool = []string{
+	"<mechanism xmlns='" + c14NSSASL + "'>PLAIN</mechanism>",
+	"<mechanism xmlns='" + c14NSSASL + "'>X-OAUTH2</mechanism>",
+	"<mechanisms xmlns='urn:example:not-sasl'><mechanism>PLAIN</mechanism><mechanism>X-OAUTH2</mechanism></mechanisms>",
+	"<authentication xmlns='urn:xmpp:sasl:2'><mechanism>PLAIN</mechanism><mechanism>X-OAUTH2</mechanism></authentication>",
+	"<x xmlns='urn:example:wrap'><mechanisms xmlns='" + c14NSSASL + "'><mechanism>PLAIN</mechanism><mechanism>X-OAUTH2</mechanism></mechanisms></x>",
+}
 
 func c14Mechs(r *rand.Rand) []string {
 	switch r.Intn(14) {
@@ -322,6 +369,24 @@ func (c14) Gen(r *rand.Rand, tier string) []interface{} {
 	in := mk(0, "u", "p", []string{}, 0, c14Replies[0])
 	in.NoElem = true
 	out = append(out, in)
+	// look-alike children and siblings: they advertise nothing
+	for kind, m := range []string{"PLAIN", "X-OAUTH2"} {
+		for _, rep := range []c14Reply{c14Replies[0], c14Replies[len(c14Replies)-4]} {
+			for _, ns := range c14ForeignNS {
+				x := mk(kind, "alice", "s3cret", []string{"SCRAM-SHA-1"}, 0, rep)
+				x.Foreign = []c14Foreign{{At: 1, NS: ns, Local: "mechanism", Text: m}}
+				out = append(out, x)
+			}
+			x := mk(kind, "alice", "s3cret", []string{}, 0, rep)
+			x.Foreign = []c14Foreign{{At: 0, NS: "urn:example:not-sasl", Local: "mechanism", Text: m}}
+			y := mk(kind, "alice", "s3cret", []string{"SCRAM-SHA-1"}, 0, rep)
+			y.Outside = c14OutsidePool
+			z := mk(kind, "alice", "s3cret", []string{"SCRAM-SHA-1", m}, 0, rep) // genuinely advertised, prefixed spelling
+			z.Spell = 1
+			z.Foreign = []c14Foreign{{At: 0, NS: "urn:example:not-sasl", Local: "mechanism", Text: "ANONYMOUS"}}
+			out = append(out, x, y, z)
+		}
+	}
 	for i := 0; i < n; i++ {
 		u, _ := c14Bytes(r)
 		s, _ := c14Bytes(r)
@@ -336,6 +401,24 @@ func (c14) Gen(r *rand.Rand, tier string) []interface{} {
 		in := mk(r.Intn(2), string(u), string(s), c14Mechs(r), w, rep)
 		if len(in.Mechs) == 0 && r.Intn(2) == 0 {
 			in.NoElem = true
+		}
+		if !in.NoElem && r.Intn(5) == 0 {
+			for k := 1 + r.Intn(3); k > 0; k-- {
+				f := c14Foreign{At: r.Intn(len(in.Mechs) + 1), NS: c14ForeignNS[r.Intn(len(c14ForeignNS))], Local: "mechanism",
+					Text: c14MechPool[r.Intn(4)]}
+				if r.Intn(6) == 0 { // SASL namespace, another name
+					f.NS, f.Local = c14NSSASL, []string{"Mechanism", "mechanisms", "mech", "hostname"}[r.Intn(4)]
+				}
+				in.Foreign = append(in.Foreign, f)
+			}
+		}
+		if r.Intn(10) == 0 {
+			for k := 1 + r.Intn(2); k > 0; k-- {
+				in.Outside = append(in.Outside, c14OutsidePool[r.Intn(len(c14OutsidePool))])
+			}
+		}
+		if r.Intn(8) == 0 {
+			in.Spell = 1
 		}
 		out = append(out, in)
 	}
@@ -375,22 +458,53 @@ func (s *c14Sock) Write(p []byte) (int, error) {
 	return len(p), nil
 }
 
-func c14Features(in c14In) (stanza.StreamFeatures, error) {
+func c14FeaturesXML(in c14In) []byte {
 	var b bytes.Buffer
 	b.WriteString("<stream:features xmlns:stream='http://etherx.jabber.org/streams'>")
 	b.WriteString("<starttls xmlns='urn:ietf:params:xml:ns:xmpp-tls'/>")
-	if !(in.NoElem && len(in.Mechs) == 0) {
-		b.WriteString("<mechanisms xmlns='" + c14NSSASL + "'>")
-		for _, m := range in.Mechs {
-			b.WriteString("<mechanism>")
-			xml.EscapeText(&b, []byte(m))
-			b.WriteString("</mechanism>")
+	for i, o := range in.Outside {
+		if i%2 == 0 {
+			b.WriteString(o)
 		}
-		b.WriteString("</mechanisms>")
+	}
+	if !(in.NoElem && len(in.Mechs) == 0) {
+		pfx := ""
+		if in.Spell == 1 {
+			pfx = "sasl:"
+			b.WriteString("<sasl:mechanisms xmlns:sasl='" + c14NSSASL + "'>")
+		} else {
+			b.WriteString("<mechanisms xmlns='" + c14NSSASL + "'>")
+		}
+		for _, c := range c14Children(in) {
+			if c.NS == c14NSSASL {
+				b.WriteString("<" + pfx + c.Local + ">")
+				xml.EscapeText(&b, []byte(c.Text))
+				b.WriteString("</" + pfx + c.Local + ">")
+			} else {
+				b.WriteString("<" + c.Local + " xmlns='")
+				xml.EscapeText(&b, []byte(c.NS))
+				b.WriteString("'>")
+				xml.EscapeText(&b, []byte(c.Text))
+				b.WriteString("</" + c.Local + ">")
+			}
+		}
+		b.WriteString("</" + pfx + "mechanisms>")
+	}
+	for i, o := range in.Outside {
+		if i%2 == 1 {
+			b.WriteString(o)
+		}
 	}
 	b.WriteString("<bind xmlns='urn:ietf:params:xml:ns:xmpp-bind'/></stream:features>")
+	return b.Bytes()
+}
+
+// c14Features: the features element as the library itself decodes it (Session.init does
+// the same Decode into a stanza.StreamFeatures): which children count as advertised
+// mechanisms is part of what is checked.
+func c14Features(in c14In) (stanza.StreamFeatures, error) {
 	var f stanza.StreamFeatures
-	err := xml.Unmarshal(b.Bytes(), &f)
+	err := xml.Unmarshal(c14FeaturesXML(in), &f)
 	return f, err
 }
 
@@ -438,14 +552,6 @@ func (c14) Run(inp interface{}) Sx {
 	if err != nil {
 		return L(Z(-1), SBytes("features: "+err.Error()))
 	}
-	if len(f.Mechanisms.Mechanism) != len(in.Mechs) {
-		return L(Z(-2), SBytes(fmt.Sprintf("features carry %q, wanted %q", f.Mechanisms.Mechanism, in.Mechs)))
-	}
-	for i, m := range in.Mechs {
-		if f.Mechanisms.Mechanism[i] != m {
-			return L(Z(-2), SBytes(fmt.Sprintf("features carry %q, wanted %q", f.Mechanisms.Mechanism, in.Mechs)))
-		}
-	}
 	sock := &c14Sock{rd: strings.NewReader(c14Root + in.Reply), w: in.W}
 	d := xml.NewDecoder(sock)
 	// the stream header has been read long before authentication
@@ -485,9 +591,10 @@ func (c14) Input(inp interface{}) Sx {
 	if in.Mode == "codec" {
 		return L(Z(1), SBytes(string(in.Data)), SBytes(string(in.Text)))
 	}
-	ms := make([]Sx, len(in.Mechs))
-	for i, m := range in.Mechs {
-		ms[i] = SBytes(m)
+	cs := c14Children(in)
+	ms := make([]Sx, len(cs))
+	for i, c := range cs {
+		ms[i] = L(SBytes(c.NS), SBytes(c.Local), SBytes(c.Text))
 	}
 	return L(Z(0), Zi(in.Kind), SBytes(string(in.User)), SBytes(string(in.Secret)), LS(ms), Zi(in.W),
 		L(Zi(in.RKind), SBytes(in.Reason)))
@@ -519,7 +626,13 @@ func (c14) Oracle(inp interface{}, obs Sx) (string, string) {
 	}
 	if !common {
 		if nwrites != 0 {
-			return fmt.Sprintf("server offers %q, credential supports %s: nothing may be sent, but %d write(s): %s", in.Mechs, credMech, nwrites, elems[0].String()), "no-common-mech-sent"
+			sig, extra := "no-common-mech-sent", ""
+			for _, f := range in.Foreign {
+				if f.Text == credMech && f.Local == "mechanism" {
+					sig, extra = "foreign-mechanism-used", fmt.Sprintf(" (a <mechanism xmlns=%q>%s</mechanism> child, which is not a SASL mechanism, was taken for one)", f.NS, f.Text)
+				}
+			}
+			return fmt.Sprintf("server offers %q, credential supports %s: nothing may be sent, but %d write(s): %s%s", in.Mechs, credMech, nwrites, elems[0].String(), extra), sig
 		}
 		if res != 1 {
 			return fmt.Sprintf("server offers %q, credential supports %s: expected a permanent error, got result %d", in.Mechs, credMech, res), "no-common-mech-error"
@@ -620,7 +733,17 @@ func (c14) Key(inp interface{}) (string, bool) {
 	default:
 		hist(fmt.Sprintf("mechs:%d", len(in.Mechs)))
 	}
-	k := fmt.Sprintf("auth/%d/%s/%v/%s/%s/%d/%d/%s", in.Kind, strings.Join(in.Mechs, "|"), in.NoElem, uc, sc,
+	if len(in.Foreign) > 0 {
+		hist("lookalike:child")
+	}
+	if len(in.Outside) > 0 {
+		hist("lookalike:outside")
+	}
+	if in.Spell == 1 {
+		hist("spelling:prefixed")
+	}
+	fk, _ := json.Marshal(in.Foreign)
+	k := fmt.Sprintf("auth/%s/%d/%d/%d/%s/%v/%s/%s/%d/%d/%s", fk, len(in.Outside), in.Spell, in.Kind, strings.Join(in.Mechs, "|"), in.NoElem, uc, sc,
 		(2+len(in.User)+len(in.Secret))%3, in.W, in.ReplyID)
 	return k, common && len(in.User)+len(in.Secret) > 0
 }
